@@ -45,6 +45,7 @@ inductive Act where
   | drop                       -- returns []
   | rev                        -- returns the top-level token list reversed
   | dup                        -- returns tokens ++ tokens
+  | app (v : List Char)        -- t.append(v) in place, returns None
   | failP                      -- raises ParseException(s, loc, ..)
   | failF                      -- raises ParseFatalException(s, loc, ..)
   | condFalse (fatal : Bool)   -- add_condition(lambda: False, fatal=..)
